@@ -110,39 +110,45 @@ func stressEventJSON(ver, kind string, tamper bool) []byte {
 	return js
 }
 
-// readAccessors calls every read-only accessor of the PDU interface and renders the results.
-func readAccessors(ev gmsl.PDU) []string {
-	sk := "<nil>"
-	if p := ev.StateKey(); p != nil {
-		sk = *p
+// accessors lists every read-only accessor of the PDU interface (rendered as strings).
+var accessors = []func(ev gmsl.PDU) string{
+	func(ev gmsl.PDU) string { return "EventID=" + ev.EventID() },
+	func(ev gmsl.PDU) string { return "RoomID=" + ev.RoomID().String() },
+	func(ev gmsl.PDU) string { h, err := ev.ToHeaderedJSON(); return fmt.Sprint("Headered=", string(h), err) },
+	func(ev gmsl.PDU) string { return "Type=" + ev.Type() },
+	func(ev gmsl.PDU) string {
+		if p := ev.StateKey(); p != nil {
+			return "StateKey=" + *p
+		}
+		return "StateKey=<nil>"
+	},
+	func(ev gmsl.PDU) string { return fmt.Sprint("StateKeyEquals=", ev.StateKeyEquals("")) },
+	func(ev gmsl.PDU) string { return "Content=" + string(ev.Content()) },
+	func(ev gmsl.PDU) string { return "SenderID=" + string(ev.SenderID()) },
+	func(ev gmsl.PDU) string { return fmt.Sprint("OriginServerTS=", ev.OriginServerTS()) },
+	func(ev gmsl.PDU) string { return fmt.Sprint("PrevEventIDs=", ev.PrevEventIDs()) },
+	func(ev gmsl.PDU) string { return fmt.Sprint("AuthEventIDs=", ev.AuthEventIDs()) },
+	func(ev gmsl.PDU) string { return fmt.Sprint("Redacted=", ev.Redacted()) },
+	func(ev gmsl.PDU) string { return "Redacts=" + ev.Redacts() },
+	func(ev gmsl.PDU) string { return fmt.Sprint("Depth=", ev.Depth()) },
+	func(ev gmsl.PDU) string { return "Version=" + string(ev.Version()) },
+	func(ev gmsl.PDU) string { return "Unsigned=" + string(ev.Unsigned()) },
+	func(ev gmsl.PDU) string { m, err := ev.Membership(); return fmt.Sprint("Membership=", m, err) },
+	func(ev gmsl.PDU) string { j, err := ev.JoinRule(); return fmt.Sprint("JoinRule=", j, err) },
+	func(ev gmsl.PDU) string { _, err := ev.PowerLevels(); return fmt.Sprint("PowerLevelsErr=", err != nil) },
+	func(ev gmsl.PDU) string { return fmt.Sprint("JSON=", len(ev.JSON())) },
+	func(ev gmsl.PDU) string { return "EventID=" + ev.EventID() },
+}
+
+// readAccessors evaluates all accessors starting with number `first` (so that different goroutines make
+// different first calls on the shared event); results are indexed by accessor.
+func readAccessors(ev gmsl.PDU, first int) []string {
+	out := make([]string, len(accessors))
+	for i := range accessors {
+		j := (first + i) % len(accessors)
+		out[j] = accessors[j](ev)
 	}
-	m, merr := ev.Membership()
-	jr, jerr := ev.JoinRule()
-	_, plerr := ev.PowerLevels()
-	hj, herr := ev.ToHeaderedJSON()
-	return []string{
-		"EventID=" + ev.EventID(),
-		"RoomID=" + ev.RoomID().String(),
-		"Type=" + ev.Type(),
-		"StateKey=" + sk,
-		fmt.Sprint("StateKeyEquals=", ev.StateKeyEquals("")),
-		"Content=" + string(ev.Content()),
-		"SenderID=" + string(ev.SenderID()),
-		fmt.Sprint("OriginServerTS=", ev.OriginServerTS()),
-		fmt.Sprint("PrevEventIDs=", ev.PrevEventIDs()),
-		fmt.Sprint("AuthEventIDs=", ev.AuthEventIDs()),
-		fmt.Sprint("Redacted=", ev.Redacted()),
-		"Redacts=" + ev.Redacts(),
-		fmt.Sprint("Depth=", ev.Depth()),
-		"Version=" + string(ev.Version()),
-		"Unsigned=" + string(ev.Unsigned()),
-		fmt.Sprint("Membership=", m, merr),
-		fmt.Sprint("JoinRule=", jr, jerr),
-		fmt.Sprint("PowerLevelsErr=", plerr != nil),
-		fmt.Sprint("JSON=", len(ev.JSON())),
-		fmt.Sprint("Headered=", len(hj), herr),
-		"EventID2=" + ev.EventID(),
-	}
+	return out
 }
 
 func stressEvents(r stressRec) hx.Result {
@@ -155,7 +161,18 @@ func stressEvents(r stressRec) hx.Result {
 		}
 		return ev
 	}
-	want := readAccessors(parse()) // sequential evaluation on a private copy
+	// Sequential evaluation on private copies, once for every starting accessor: the result of an accessor in
+	// SOME sequential order of the calls.  (ToHeaderedJSON legitimately differs with the order: it embeds the
+	// event ID only once EventID() has been called.)
+	want := make([]map[string]bool, len(accessors))
+	for i := range want {
+		want[i] = map[string]bool{}
+	}
+	for first := range accessors {
+		for i, s := range readAccessors(parse(), first) {
+			want[i][s] = true
+		}
+	}
 	key := "C19/stress/events/accessor-result"
 	for round := 0; round < r.Rounds; round++ {
 		ev := parse() // fresh: the first accessor calls happen concurrently
@@ -167,20 +184,24 @@ func stressEvents(r stressRec) hx.Result {
 			go func(g int) {
 				defer wg.Done()
 				<-start
-				got[g] = readAccessors(ev)
+				got[g] = readAccessors(ev, (g*7+round)%len(accessors))
 			}(g)
 		}
 		close(start)
 		wg.Wait()
 		for g := range got {
 			for i := range want {
-				if got[g][i] != want[i] {
-					return hx.Result{OK: false, Key: key, What: fmt.Sprintf("room version %s %s event (tampered=%v), %d goroutines: goroutine %d observed %q, sequential evaluation gives %q", r.Ver, r.Kind, r.Tamper, r.K, g, got[g][i], want[i])}
+				if !want[i][got[g][i]] {
+					return hx.Result{OK: false, Key: key, What: fmt.Sprintf("room version %s %s event (tampered=%v), %d goroutines: goroutine %d observed %q, sequential evaluation gives %q", r.Ver, r.Kind, r.Tamper, r.K, g, got[g][i], sortedKeys(want[i]))}
 				}
 			}
 		}
 	}
-	return hx.Result{OK: true, NT: fmt.Sprintf("events v%s %s tamper=%v redacted=%v", r.Ver, r.Kind, r.Tamper, strings.Contains(strings.Join(want, " "), "Redacted=true"))}
+	red := false
+	for s := range want[11] {
+		red = red || s == "Redacted=true"
+	}
+	return hx.Result{OK: true, NT: fmt.Sprintf("events v%s %s tamper=%v redacted=%v", r.Ver, r.Kind, r.Tamper, red)}
 }
 
 // ------------------------------------------------------------------ verify
